@@ -313,7 +313,10 @@ def run_check(prop, tier, seed):
     ev = {"property_id": prop, "tier": tier, "seed": seed, "level": getattr(mod, "LEVEL", "exploration"),
           "coverage": coverage, "assumptions": list(getattr(mod, "ASSUMPTIONS", [])),
           "wall_s": round(time.time() - t0, 2), "violations": len(merged["violations"])}
-    if not os.environ.get("VERIF_NO_EVIDENCE"):      # set only by tools/seed_eval.py (runs against scratch trees)
+    # evidence is only written by full-budget runs against /repo itself (scratch trees and scaled-down trial runs
+    # never touch it)
+    real_repo = os.path.realpath(os.environ.get("VERIF_REPO", "/repo")) == os.path.realpath("/repo")
+    if not os.environ.get("VERIF_NO_EVIDENCE") and real_repo and scale == 1.0:
         os.makedirs(os.path.join(ROOT, "evidence"), exist_ok=True)
         with open(os.path.join(ROOT, "evidence", prop + ".json"), "w") as fh:
             json.dump(ev, fh, indent=1, default=str)
